@@ -97,8 +97,9 @@ def c08(replay_case=None):
 def c10(replay_case=None):
     return run(
         "C10",
-        select=lambda c: c["consume"] and not c["flags"]["sentence"] and not c.get("overlap"),
-        clause_ok=lambda cl, c: cl.startswith("C10:"),
+        # (grammars with lexically overlapping terminals: only the location of the LR parser's DisambiguationError is judged)
+        select=lambda c: c["consume"] and ((not c["flags"]["sentence"] and not c.get("overlap")) or c["lr"]["kind"] == "disamb"),
+        clause_ok=lambda cl, c: cl.startswith("C10:") and (not c.get("overlap") or cl == "C10:lr:disambiguation-error-not-located-at-an-ambiguous-token"),
         nontrivial=lambda c: c["flags"]["lvp"] >= 1 or len(c["input"]) == 0,
         rule="cases = every non-sentence of the LR corpus (all inputs <= n tokens incl. the empty string, inputs ending in layout, multi-line inputs, junk "
              "characters), GLR always, LR position clauses on exact tables, exception class on resolved tables; non-trivial = viable prefix of >= 1 token or empty input",
